@@ -111,9 +111,13 @@ def bundle_check(rep, n, seed):
                 while cut < len(lines) and not lines[cut].startswith(":: "):
                     cut += 1
                 open(os.path.join(d, "parts", "rest.bard"), "w").write("\n".join(lines[cut:]))
-                open(os.path.join(d, "story.bard"), "w").write("\n".join(lines[:cut] + ["@include parts/rest.bard"]))
+                main_text = "\n".join(lines[:cut] + ["@include parts/rest.bard"])
             else:
-                open(os.path.join(d, "story.bard"), "w").write(src)
+                main_text = src
+            # the main file as editors on other systems save it: CRLF or lone CR line ends, a byte order mark in front
+            nl = ["\n", "\r\n", "\n", "\r\n", "\r", "\n"][i % 6]
+            with open(os.path.join(d, "story.bard"), "w", encoding="utf-8", newline=nl) as f_:
+                f_.write(("\ufeff" if i % 5 == 4 else "") + main_text)
             main = os.path.join(d, "story.bard")
             try:
                 with quiet():
